@@ -121,6 +121,8 @@ def pb_text(c, v, r):
         div = "second"
     if div == "second" and v == c["nlev"] and i == 2:
         return "-----"
+    if div == "nullkey" and v == c["nlev"] and i == 2:
+        return None
     if div == "resume" and v == c["nlev"]:
         return "-----" if i == 2 else "~P%d.%d~" % (v, i - 2 if i >= 3 else 1)
     if div == "cycle":
@@ -134,6 +136,9 @@ def pb_text(c, v, r):
 
 def sub_text(c, r):
     i = sum(1 for j in range(1, r + 1) if c["schg"][j - 1])
+    if c["div"] == "collide":
+        k = sum(1 for x in c["schg"] if x) + 1
+        return "~S" + "1" * i + ", " + "1" * (k - i) + "~"
     return "~S%d~" % ((i - 1) % 2 + 1 if c["div"] == "cycle" else i)
 
 
@@ -158,7 +163,7 @@ def build(c, o, nrows=None):
 
     n = c["n"] if nrows is None else nrows
     pbcols = ["~PB%d~" % v for v in range(1, c["nlev"] + 1)] if has_pb(c) else []
-    subcols = ["~SB~"] if has_sub(c) else []
+    subcols = (["~SB~", "~SB2~"] if c["div"] == "collide" else ["~SB~"]) if has_sub(c) else []
     dcols = ["~D%d~" % k for k in range(1, o["ndata"] + 1)]
     gcols = pbcols + subcols
     gpos = o.get("gpos", "first")
@@ -207,8 +212,9 @@ def build(c, o, nrows=None):
     for r in range(1, n + 1):
         for v, x in enumerate(pbcols, 1):
             data[x].append(pb_text(c, v, r))
-        for x in subcols:
-            data[x].append(sub_text(c, r))
+        for si, x in enumerate(subcols):
+            st = sub_text(c, r)
+            data[x].append(st.split(", ")[si] if len(subcols) == 2 else st)
         for k, x in enumerate(dcols):
             if o["texts"] is not None:
                 data[x].append(o["texts"][r - 1][k])
@@ -321,7 +327,7 @@ def _twip(x):
 
 _RE_HEAD = re.compile(r"^(~P\d+\.\d+~|-----)$")
 _RE_HDR = re.compile(r"^~(D\d+|PB\d+|SB|H\d+\.\d+)~$")
-_RE_SUB = re.compile(r"^~S\d+~$")
+_RE_SUB = re.compile(r"^~S\d+(, 1*)?~$")
 _RE_TAG = re.compile(r"^d(\d{3})\b")
 
 
